@@ -44,9 +44,18 @@ def expected_after_roundtrip(t, v, env):
     return to_sx(v, env)
 
 
-def impl_encode(g, v, tn):
+FORM_RNG = __import__("random").Random(int(__import__("os").environ.get("VERIF_SEED", "1") or "1") + 77)
+FORMS = {"reformed": 0, "as_given": 0}
+
+
+def impl_encode(g, v, tn, reform=True):
     S = g.AuxData.serializer
     buf = io.BytesIO()
+    if reform and FORM_RNG.random() < 0.4:
+        v = auxval.reform(FORM_RNG, v)
+        FORMS["reformed"] += 1
+    else:
+        FORMS["as_given"] += 1
     try:
         with time_limit(5):
             S.encode(buf, v, tn)
@@ -63,7 +72,11 @@ def impl_decode(g, bs, tn, env):
     S = g.AuxData.serializer
     try:
         with time_limit(5):
-            v = S.decode(bytes(bs), tn, env.ir.get_by_uuid)
+            # the byte string itself, another bytes-like object, or a binary stream positioned at the value
+            r = FORM_RNG.random()
+            src = bytes(bs) if r < 0.6 else (io.BytesIO(bytes(bs)) if r < 0.85 else (bytearray(bs) if r < 0.93 else memoryview(bytes(bs))))
+            FORMS["decode_from:" + type(src).__name__] = FORMS.get("decode_from:" + type(src).__name__, 0) + 1
+            v = S.decode(src, tn, env.ir.get_by_uuid)
     except ImplTimeout:
         return ("err", "HANG")
     except MemoryError:
